@@ -625,8 +625,10 @@ class Topology(ABC):
         are violated.
         :return:
         """
-        # check nodes
+        # check nodes (facilities are NetworkNodes that the nodes view does not list)
         for n in self.nodes.values():
+            n.validate_constraints()
+        for n in self.facilities.values():
             n.validate_constraints()
 
         check_num_instances = set()
